@@ -4,10 +4,27 @@ import json, os, subprocess
 V = os.path.dirname(os.path.dirname(os.path.abspath(__file__)))
 
 CLAIMS = {
+ "C01": ("MIR dataflow on write counts (W1), dominance/must-pass for flush (F1) and read-ahead hand-over (H1), relay-arm data identity (R1), statics scan (O1)",
+         "Structural necessary conditions of byte-exact relaying: no discarded write count, read-ahead drained both ways before unwrap, handshake writers flush, relay writes buf[..n] of its own read, no shared byte container. Not an equality proof over all segmentations.",
+         "Trusts tokio BufReader/BufWriter/write_all contracts, rustls record handling and kernel splice semantics.", "3/C01"),
+ "C02": ("CFG dominance + who-may-call over the call graph; find_map chain and closure shape; attribute projection table; argument dataflow of cidr_match",
+         "First-match selection under one guard, connect dominated by both not-None edges and the feature gate with erroring deny edges, only process_request may connect/relay, evaluation error = no match, attribute table and cidr argument order. Necessary conditions, not evaluator correctness.",
+         "Trusts cidr::AnyIpCidr::contains and the milu evaluator's value semantics (C08 covers soundness only).", "3/C02"),
+ "C03": ("dominating range guards on narrowing length casts (L1), validator dominance (V1), encoder/decoder tag-table agreement (T-addr), refusal edges, who-may-call set_target",
+         "Every narrowing length cast in an encoder is range-guarded or a reasoned constant case, process_request refuses un-encodable hosts before any connector, tag tables agree, IPv6 over SOCKS4 errors, only listeners set the target. Not value-level round-trip equality.",
+         "Trusts UDP payload bound for u16 body length; one recorded known finding (per-datagram 254/255-byte host in RPFM TLV).", "3/C03"),
+ "C04": ("sibling agreement of sink variants (write in loop => shutdown after loop), arm parity, dominance of the Ok return by both completion slots, escape-API who-may-call, Ok/Err edge must-pass in process_request",
+         "Each sink written in the relay loop is shut down after it, all arms count what they write, copy_bidi needs both halves, no fd escape API, finished/error recorded. Not FIN/RST timing.",
+         "Trusts tokio shutdown/AsyncFd and that dropping a socket closes it.", "3/C04"),
  "C05": ("MIR panic-edge enumeration with dominance/byte-budget/constant-range discharges, select! branch analysis, reasoned table with re-checked anchors; unbounded-read and recursion rules",
-         "Every panic edge (explicit, unwrap/expect, MIR Assert, panicking library API) in code reachable from any spawned task is discharged by a re-derived guard or an anchored table entry, else reported; unbounded line reads and recursion cycles are reported. Structural necessary condition of crash-freedom, not a proof about dependencies.",
+         "Every panic edge (explicit, unwrap/expect, MIR Assert, panicking library API) in code reachable from any spawned task is discharged by a re-derived guard or an anchored table entry, else reported; unbounded line reads and peer-driven recursion are reported. Structural necessary condition of crash-freedom, not a proof about dependencies.",
          "Trusts rustc MIR, the curated panicking-API table and dependency contracts (tokio read returns n <= buf.len(), kernel recvmsg cmsg presence).", "3/C05"),
- # id: (technique, level text, level note, design_ref)
+ "C06": ("dominance of on_connect by connect's Ok edge, success-constructor who-may-construct, must-pass on_error on failure edges, callback guard dominance (never both), F1/CL1 dataflow, SOCKS4 code tables",
+         "Success only after connect, every failure path replies once, no reply after success, complete replies (flush, Content-Length = body), writer/reader verdict tables agree, HTTP upstream 200 required. Not the client's view of timing.",
+         "Trusts BufWriter flush semantics and upstream protocol conformance.", "3/C06"),
+ "C07": ("dominance of enqueue by the auth-check true edge, select_method/check edge analysis, cache key type + dataflow + expiry task shape, TLS ServerConfig builder who-may-call, TLS-accept stream choice, insecure-flag dominance",
+         "Enqueue only after AuthData::check on the presented credentials, NONE only when not required, cache keyed by the pair with expiry, every server config uses the configured client verifier, TLS stream used when TLS configured, verification disabled only under `insecure`. Not rustls' validation itself.",
+         "Trusts rustls verifiers and the external auth command.", "3/C07"),
  "C09": ("PEG extraction from MIR + table comparison with readme (ordered-choice shadowing, ladder, fold direction, constructor totality, blank coverage)",
          "Structural necessary conditions of the documented grammar, decided on the grammar extracted from the type-checked parser: level sets equal the readme table, no prefix-shadowed alternative, left folds, total/live constructor tables, blank skipper before every token. Not a proof of tree equality for all inputs.",
          "Trusts nom's documented ordered-choice semantics and rustc's MIR; the readme table is taken as the documentation.", "3/C09"),
